@@ -487,7 +487,29 @@ func c12printers(c *an.Ctx) {
 	if f := fn(r3, qlPkg+":NumberLiteral.RenderBytes"); f != nil {
 		ff := obj(r3, "strconv:FormatFloat")
 		k := 0
-		for _, s := range f.Find(an.MCall("FormatFloat", ff)).List {
+		holder := f
+		sites := f.Find(an.MCall("FormatFloat", ff))
+		if sites.Len() == 0 {
+			// the formatting may live in a helper of the package that RenderBytes calls
+			ast.Inspect(f.Body, func(m ast.Node) bool {
+				ce, ok := m.(*ast.CallExpr)
+				if !ok || sites.Len() > 0 {
+					return true
+				}
+				if cal := an.Callee(f.Info, ce); cal != nil && cal.Pkg() == f.Pkg.Types {
+					if src := c.P.Src(cal); src != nil && src.Decl.Body != nil {
+						if hf := c.P.Fn(src); hf != nil {
+							if ss := hf.Find(an.MCall("FormatFloat", ff)); ss.Len() > 0 {
+								holder, sites = hf, ss
+							}
+						}
+					}
+				}
+				return true
+			})
+		}
+		f = holder
+		for _, s := range sites.List {
 			ce := s.Node.(*ast.CallExpr)
 			k++
 			if len(ce.Args) != 4 {
@@ -756,6 +778,8 @@ func c12round2(c *an.Ctx) {
 							key := d.Name() + ": " + y.Tok.String() + " in loop over " + over
 							if why, ok := c12CodecSkips[key]; ok {
 								r5.Except(key, why)
+							} else if rs, isRange := m.(*ast.RangeStmt); isRange && y.Tok.String() == "continue" && nonMeasurementSourceSkip(c, d, rs, y) {
+								r5.Except(key, "only measurements are shipped as sources (the skipped element failed the assertion to *influxql.Measurement); sub-queries and other source kinds are planned into the shipped plan")
 							} else if y.Tok.String() == "continue" && continueAfterEmit(c, d, y) {
 								// the element was emitted (append / indexed store) on every path to this continue: nothing is skipped
 							} else {
@@ -772,6 +796,58 @@ func c12round2(c *an.Ctx) {
 	}
 	r5.AddSites(n)
 	r5.Floor(12, "loops in the option codec")
+}
+
+// nonMeasurementSourceSkip: the `continue` is the body of `if !ok` where ok is the result of
+// asserting the loop's element (an influxql.Source) to *influxql.Measurement.
+func nonMeasurementSourceSkip(c *an.Ctx, d *an.FuncSrc, rs *ast.RangeStmt, br *ast.BranchStmt) bool {
+	f := c.P.Fn(d)
+	if f == nil {
+		return false
+	}
+	vid, _ := rs.Value.(*ast.Ident)
+	if vid == nil {
+		return false
+	}
+	elem := f.Info.Defs[vid]
+	if elem == nil || !strings.HasSuffix(elem.Type().String(), "influxql.Source") {
+		return false
+	}
+	blk, _ := f.Parent(br).(*ast.BlockStmt)
+	if blk == nil || len(blk.List) != 1 {
+		return false
+	}
+	ifs, _ := f.Parent(blk).(*ast.IfStmt)
+	if ifs == nil || ifs.Body != blk {
+		return false
+	}
+	un, _ := ast.Unparen(ifs.Cond).(*ast.UnaryExpr)
+	if un == nil || un.Op.String() != "!" {
+		return false
+	}
+	okID, _ := ast.Unparen(un.X).(*ast.Ident)
+	if okID == nil {
+		return false
+	}
+	okVar := f.Info.Uses[okID]
+	found := false
+	ast.Inspect(rs.Body, func(k ast.Node) bool {
+		as, ok := k.(*ast.AssignStmt)
+		if !ok || len(as.Lhs) != 2 || len(as.Rhs) != 1 {
+			return true
+		}
+		l1, _ := as.Lhs[1].(*ast.Ident)
+		ta, _ := ast.Unparen(as.Rhs[0]).(*ast.TypeAssertExpr)
+		if l1 == nil || ta == nil || ta.Type == nil || (f.Info.Defs[l1] != okVar && f.Info.Uses[l1] != okVar) {
+			return true
+		}
+		x, _ := ast.Unparen(ta.X).(*ast.Ident)
+		if x != nil && f.Info.Uses[x] == elem && strings.HasSuffix(f.Info.TypeOf(ta.Type).String(), "influxql.Measurement") {
+			found = true
+		}
+		return true
+	})
+	return found
 }
 
 // continueAfterEmit reports whether every path from the start of the loop body to the
